@@ -183,7 +183,7 @@ func runC12(c *core.Ctx) {
 		if r.Intn(3) == 0 {
 			k.authnCtx = &saml.RequestedAuthnContext{Comparison: "exact", AuthnContextClassRef: "urn:oasis:names:tc:SAML:2.0:ac:classes:PasswordProtectedTransport"}
 		}
-		c12Sequence(c, k, 1+r.Intn(c.Pick(12, 200)))
+		c12Sequence(c, k, 1+r.Intn(c.Pick(12, 200))+c.Pick(60, 300)*boolInt(r.Intn(12) == 0))
 	}
 }
 
@@ -573,4 +573,11 @@ func keysOf(m map[string][]string) []string {
 		k = append(k, fmt.Sprintf("%s*%d", n, len(v)))
 	}
 	return k
+}
+
+func boolInt(b bool) int {
+	if b {
+		return 1
+	}
+	return 0
 }
